@@ -30,6 +30,16 @@ func (fx *FuncVC) cellLookup(fr *frame, li *loopInfo, st *State) func(string) (V
 				}
 			}
 			for _, in := range hli.header.Instrs {
+				if n, ok := in.(*ssa.Next); ok && n.IsString {
+					// range over a string: @i is the byte offset of the next rune to decode
+					if rg, ok := n.Iter.(*ssa.Range); ok {
+						if c := fx.cellByInstr[rg]; c != nil {
+							if v, ok := st.cells[c]; ok {
+								return v.(Sc), true
+							}
+						}
+					}
+				}
 				if u, ok := in.(*ssa.UnOp); ok && u.Op == token.MUL {
 					if a, ok := u.X.(*ssa.Alloc); ok && a.Comment == "rangeindex" {
 						if c := fr.cells[a]; c != nil {
